@@ -52,6 +52,7 @@ type Options struct {
 	Fallback    bool   `json:"fallback,omitempty"`
 	EncodedPath bool   `json:"encodedPath,omitempty"` // UseEncodedPath: match on URL.EscapedPath()
 	Wrapped     bool   `json:"wrapped,omitempty"`     // serve through Router.WrapHTTPHandlers(pass-through pre-handlers)
+	Intercept   string `json:"intercept,omitempty"`   // InterceptAll(path): every request is resolved as a request for this path
 	OnPanic     string `json:"onPanic,omitempty"` // handler id
 	OnError     string `json:"onError,omitempty"` // handler id
 }
@@ -100,7 +101,10 @@ type Req struct {
 	Path    string              `json:"p"`
 	WFaults []WFault            `json:"wf,omitempty"`
 	Plain   bool                `json:"plain,omitempty"` // the connection's writer offers only Header/Write/WriteHeader (no Flusher, Hijacker, ReaderFrom)
-	Gone    bool                `json:"gone,omitempty"` // the client has gone: the request's context is already cancelled when it arrives
+	Gone    bool                `json:"gone,omitempty"`
+	Expired bool                `json:"expired,omitempty"` // the request's context carries a deadline that has long passed
+	HTTP10  bool                `json:"http10,omitempty"`  // an HTTP/1.0 request
+	Served  bool                `json:"served,omitempty"`  // the request context carries http.ServerContextKey / LocalAddrContextKey, as under a real server // the client has gone: the request's context is already cancelled when it arrives
 	Over    map[string][]Action `json:"over,omitempty"` // per-request script overrides
 }
 
